@@ -19,6 +19,9 @@ pub enum Case {
     Poly { k: usize, coeffs: Vec<f64>, centre: f64, half_width: f64, us: Vec<f64>, weights: Option<Vec<f64>>, noise: Option<Vec<f64>> },
     Line2Pts { x0: f64, y0: f64, x1: f64, y1: f64 },
     Circle { c: P2, r: f64, a0: f64, extent: f64, n: usize, jitter: Vec<f64>, guess: (f64, f64, f64), gaussian: Option<f64>, noise: Option<Vec<f64>> },
+    /// samples with integer offsets of exactly equal length (Pythagorean triples, times 2^exp2) from an integer centre:
+    /// bit-identical distances from the centre; the guess may be concentric (guess offsets are multiples of 1/8 of R)
+    CircleLattice { cx: i32, cy: i32, which: u8, exp2: i32, drop: Vec<u16>, guess: (i8, i8, f64), gaussian: Option<f64> },
     Ransac { c: P2, r: f64, n_in: usize, in_angles: Vec<f64>, outliers: Vec<P2>, limits: u8 },
     Stats { values: Vec<f64> },
 }
@@ -27,13 +30,13 @@ impl Property for C09 {
     type Case = Case;
     const ID: &'static str = "C09";
     fn rule() -> &'static str {
-        "families: polynomial least squares with K=2..6 coefficients on 1.5K..200 abscissae centred at c in [-1.5,1.5] with half-width 0.2..2 (asymmetric, clustered, repeated values), coefficients +-10, optional positive weights 0.05..20, exact samples or +-1 noise (cases with normal-matrix condition > 1e10 discarded and counted); two-point lines; circle fits on arcs of 60..360 degrees, 5..200 points, guess within 0.5R / 0.5-2x radius, All and Gaussian(sigma>=2) modes, exact or noisy; seeded RANSAC with >=50% exact inliers; mean/variance/median. Oracle: recovery of the generating polynomial/circle, weighted normal equations (residual orthogonal to every monomial), QR reference solve, stationarity of the radial objective, inlier count. Non-trivial: abscissae not symmetric about 0 (|centre| > 0.1 half-width) and, when weighted, max/min weight >= 2; circles not centred at the origin. Distinct = distinct canonical JSON."
+        "families: polynomial least squares with K=2..6 coefficients on 1.5K..200 abscissae centred at c in [-1.5,1.5] with half-width 0.2..2 (asymmetric, clustered, repeated values), coefficients +-10, optional positive weights 0.05..20, exact samples or +-1 noise (cases with normal-matrix condition > 1e10 discarded and counted); two-point lines; circle fits on arcs of 60..360 degrees, 5..200 points, guess within 0.5R / 0.5-2x radius, All and Gaussian(sigma>=2) modes, exact or noisy; lattice circles (Pythagorean offsets from an integer centre, bit-identical distances) with concentric or offset guesses, and with the generating circle itself as the guess; seeded RANSAC with >=50% exact inliers; mean/variance/median. Oracle: recovery of the generating polynomial/circle, weighted normal equations (residual orthogonal to every monomial), QR reference solve, stationarity of the radial objective, inlier count. Non-trivial: abscissae not symmetric about 0 (|centre| > 0.1 half-width) and, when weighted, max/min weight >= 2; circles not centred at the origin. Distinct = distinct canonical JSON."
     }
     fn cases(t: Tier) -> u32 {
         t.pick(1_000_000, 6_000_000)
     }
     fn expected_labels() -> Vec<&'static str> {
-        vec!["poly_exact", "poly_noisy", "weighted", "K=2", "K=3", "K=4", "K=5", "K=6", "best_fit_line", "line_2pts", "circle_exact", "circle_noisy", "circle_gaussian", "ransac", "stats", "asymmetric"]
+        vec!["poly_exact", "poly_noisy", "weighted", "K=2", "K=3", "K=4", "K=5", "K=6", "best_fit_line", "line_2pts", "circle_exact", "circle_noisy", "circle_gaussian", "circle_lattice", "circle_concentric_guess", "ransac", "stats", "asymmetric"]
     }
     fn strategy(_t: Tier) -> BoxedStrategy<Case> {
         let poly = (2usize..=6, prop::collection::vec(coord(10.0), 6), unif(-1.5, 1.5), unif(0.2, 2.0), prop::collection::vec(prop_oneof![4 => unif(-1.0, 1.0), 1 => (-4i32..=4).prop_map(|k| k as f64 / 4.0)], 9..200), prop::option::of(prop::collection::vec(logu(-1.3, 1.3), 200)), prop::option::of(prop::collection::vec(unif(-1.0, 1.0), 200)), 0usize..200)
@@ -52,7 +55,10 @@ impl Property for C09 {
             1 => (prop::sample::select(vec![0.2, 0.3, 3.0, 5.0, 8.0]), (unif(-1.0, 1.0), unif(-1.0, 1.0)), prop::collection::vec(unif(0.0, 2.0 * PI), 10..120))
                 .prop_map(|(rho, o, angs)| angs.iter().map(|t| [o.0 + rho * t.cos(), o.1 + rho * t.sin()]).collect::<Vec<P2>>()),
         ], 0u8..4).prop_map(|(c, r, n_in, in_angles, outliers, limits)| Case::Ransac { c, r, n_in, in_angles, outliers, limits });
+        let lattice = (-100i32..=100, -100i32..=100, 0u8..4, -10i32..=10, prop::collection::vec(any::<u16>(), 0..6), (prop_oneof![2 => Just(0i8), 1 => -2i8..=2], prop_oneof![2 => Just(0i8), 1 => -2i8..=2], unif(0.5, 2.0)), prop::option::of(unif(2.0, 4.0)))
+            .prop_map(|(cx, cy, which, exp2, drop, guess, gaussian)| Case::CircleLattice { cx, cy, which, exp2, drop, guess, gaussian });
         prop_oneof![
+            1 => lattice,
             8 => poly,
             1 => (coord(10.0), coord(10.0), coord(10.0), coord(10.0)).prop_map(|(x0, y0, x1, y1)| Case::Line2Pts { x0, y0, x1, y1 }),
             3 => circle,
@@ -72,6 +78,7 @@ impl Property for C09 {
             },
             Case::Line2Pts { x0, y0, x1, y1 } => line2pts(*x0, *y0, *x1, *y1),
             Case::Circle { c, r, a0, extent, n, jitter, guess, gaussian, noise } => circle(c, *r, *a0, *extent, *n, jitter, *guess, gaussian, noise),
+            Case::CircleLattice { cx, cy, which, exp2, drop, guess, gaussian } => circle_lattice(*cx, *cy, *which, *exp2, drop, *guess, gaussian),
             Case::Ransac { c, r, n_in, in_angles, outliers, limits } => ransac(c, *r, *n_in, in_angles, outliers, *limits),
             Case::Stats { values } => stats(values),
         }
@@ -274,6 +281,74 @@ fn circle(c: &P2, r: f64, a0: f64, extent: f64, n: usize, jitter: &[f64], guess:
         ensure!(gn <= 1e-5 * (sr + fit.r()), "C09/circle_fit/not_stationary", "gradient norm {gn:e} of the summed squared radial residuals at the result (sum |r| = {sr:e}, R = {:e})", fit.r());
     }
     if c0.coords.norm() > 1e-6 {
+        cx.nontrivial();
+    }
+    cx.pass()
+}
+
+/// Exact lattice samples: every sample is at bit-identical distance from the true centre, so a concentric guess sees
+/// residuals with zero spread (and zero sum of squares when its radius is right too).
+fn circle_lattice(cxi: i32, cyi: i32, which: u8, exp2: i32, drop: &[u16], guess: (i8, i8, f64), gaussian: &Option<f64>) -> Verdict {
+    let mut cx = Ctx::new();
+    cx.label("circle_lattice");
+    let (rr, legs): (i32, &[(i32, i32)]) = match which % 4 {
+        0 => (5, &[(3, 4)]),
+        1 => (13, &[(5, 12)]),
+        2 => (25, &[(7, 24), (15, 20)]),
+        _ => (65, &[(16, 63), (25, 60), (33, 56), (39, 52)]),
+    };
+    let mut offs: Vec<(i32, i32)> = vec![(rr, 0), (-rr, 0), (0, rr), (0, -rr)];
+    for (a, b) in legs {
+        for (x, y) in [(*a, *b), (*b, *a)] {
+            for (sx, sy) in [(1, 1), (1, -1), (-1, 1), (-1, -1)] {
+                offs.push((sx * x, sy * y));
+            }
+        }
+    }
+    offs.sort_by(|p, q| (p.1 as f64).atan2(p.0 as f64).partial_cmp(&(q.1 as f64).atan2(q.0 as f64)).unwrap());
+    for d in drop {
+        if offs.len() > 5 {
+            let k = idx(*d, offs.len());
+            offs.remove(k);
+        }
+    }
+    // the statement asks for an arc of at least 60 degrees
+    let mut angs: Vec<f64> = offs.iter().map(|p| (p.1 as f64).atan2(p.0 as f64)).collect();
+    angs.sort_by(|a, b| a.partial_cmp(b).unwrap());
+    let mut gap = angs[0] + std::f64::consts::TAU - angs[angs.len() - 1];
+    for w in angs.windows(2) {
+        gap = gap.max(w[1] - w[0]);
+    }
+    if std::f64::consts::TAU - gap < PI / 3.0 {
+        return Verdict::Discard("samples span less than 60 degrees");
+    }
+    let u = 2f64.powi(exp2);
+    let r = rr as f64 * u;
+    let c0 = Point2::new(cxi as f64 * u, cyi as f64 * u);
+    let pts: Vec<Point2> = offs.iter().map(|p| Point2::new(c0.x + p.0 as f64 * u, c0.y + p.1 as f64 * u)).collect();
+    let concentric = guess.0 == 0 && guess.1 == 0;
+    let g = Circle2::new(c0.x + guess.0 as f64 * r / 8.0, c0.y + guess.1 as f64 * r / 8.0, r * guess.2);
+    let mode = match gaussian {
+        Some(s) => BestFit::Gaussian(*s),
+        None => BestFit::All,
+    };
+    cx.label_if(concentric, "circle_concentric_guess");
+    cx.label_if(gaussian.is_some(), "circle_gaussian");
+    let fit = match guarded(|| Circle2::fitting_circle(&pts, &g, mode)) {
+        Ok(Ok(f)) => f,
+        Ok(Err(e)) => return Verdict::fail("C09/circle_fit/exact_failed", format!("fit of {} lattice samples failed: {e}", pts.len())),
+        Err(m) => return Verdict::fail("C09/circle_fit/panic", m),
+    };
+    let tol = 1e-6 * r;
+    ensure!((fit.center - c0).norm() <= tol && (fit.r() - r).abs() <= tol, "C09/circle_fit/exact_recovery", "{} lattice samples of circle ({:?}, r={r:e}) from guess offset ({}/8, {}/8)R, {:.3}R, mode {}: fitted ({:?}, r={:e})", pts.len(), c0, guess.0, guess.1, guess.2, if gaussian.is_some() { "Gaussian" } else { "All" }, fit.center, fit.r());
+    // a guess that is already the answer must come back unchanged
+    let exact = Circle2::new(c0.x, c0.y, r);
+    match guarded(|| Circle2::fitting_circle(&pts, &exact, mode)) {
+        Ok(Ok(f)) => ensure!((f.center - c0).norm() <= tol && (f.r() - r).abs() <= tol, "C09/circle_fit/exact_guess_moved", "a guess equal to the generating circle came back as ({:?}, r={:e})", f.center, f.r()),
+        Ok(Err(e)) => return Verdict::fail("C09/circle_fit/exact_guess_failed", format!("fit started at the generating circle failed: {e}")),
+        Err(m) => return Verdict::fail("C09/circle_fit/panic", m),
+    }
+    if cxi != 0 || cyi != 0 {
         cx.nontrivial();
     }
     cx.pass()
